@@ -9,8 +9,45 @@ pub(crate) mod verif_s {
     const MAX_FRAME: Frame = 1 << 20;
 
     /// for the session-level harnesses: move the frame counter without running frames
-    pub(crate) fn set_current_frame(sl: &mut SyncLayer<CfgRL>, f: Frame) {
+    pub(crate) fn set_current_frame<T: Config<Input = u8, State = u32>>(sl: &mut SyncLayer<T>, f: Frame) {
         sl.current_frame = f;
+    }
+
+    pub(crate) fn set_last_confirmed<T: Config<Input = u8, State = u32>>(sl: &mut SyncLayer<T>, f: Frame) {
+        sl.last_confirmed_frame = f;
+    }
+    /// install a complete mid-run state (session-level inductive harnesses)
+    pub(crate) fn install<T: Config<Input = u8, State = u32>>(
+        sl: &mut SyncLayer<T>,
+        current: Frame,
+        last_confirmed: Frame,
+        last_saved: Frame,
+        q0: InputQueue<T>,
+        q1: InputQueue<T>,
+    ) {
+        sl.current_frame = current;
+        sl.last_confirmed_frame = last_confirmed;
+        sl.last_saved_frame = last_saved;
+        core::mem::forget(core::mem::replace(&mut sl.input_queues[0], q0));
+        core::mem::forget(core::mem::replace(&mut sl.input_queues[1], q1));
+    }
+    pub(crate) fn num_cells<T: Config<Input = u8, State = u32>>(sl: &SyncLayer<T>) -> usize {
+        sl.saved_states.states.len()
+    }
+    pub(crate) fn cell_frame<T: Config<Input = u8, State = u32>>(sl: &SyncLayer<T>, i: usize) -> Frame {
+        sl.saved_states.states[i].frame()
+    }
+    pub(crate) fn cell_data<T: Config<Input = u8, State = u32>>(sl: &SyncLayer<T>, i: usize) -> Option<u32> {
+        sl.saved_states.states[i].load()
+    }
+    pub(crate) fn cell_save<T: Config<Input = u8, State = u32>>(sl: &SyncLayer<T>, i: usize, frame: Frame, data: u32) {
+        sl.saved_states.states[i].save(frame, Some(data), Some(data as u128));
+    }
+    pub(crate) fn queue<T: Config<Input = u8, State = u32>>(sl: &SyncLayer<T>, p: usize) -> &InputQueue<T> {
+        &sl.input_queues[p]
+    }
+    pub(crate) fn last_confirmed<T: Config<Input = u8, State = u32>>(sl: &SyncLayer<T>) -> Frame {
+        sl.last_confirmed_frame
     }
 
     fn any_frame_or_null() -> Frame {
